@@ -34,7 +34,11 @@ struct RBase : Profile {
     Rng gr(subseed(vseed, std::string(id()) + "/gen", group));
     GenProgram p = gen_program(gr, kn);
     Rng xr(subseed(vseed, std::string(id()) + "/extra", group));
-    extra_statements(xr, p.ast, p);
+    { // the property's own scenarios run first: an unhandled error in the generic part must not hide them
+      size_t n0 = p.ast["body"].size();
+      extra_statements(xr, p.ast, p);
+      json& b = p.ast["body"];
+      if (b.size() > n0 && n0 > 0) { json nb = json::array(); for (size_t i = n0; i < b.size(); ++i) nb.push_back(b[i]); for (size_t i = 0; i < n0; ++i) nb.push_back(b[i]); b = nb; } }
     json plan; plan["property"] = id(); plan["ast"] = p.ast;
     if (with_probe() && !p.extra_bodies.empty()) plan["probe_ast"] = p.extra_bodies[0];
     fill(plan);
@@ -73,10 +77,11 @@ struct RBase : Profile {
     if (im.outcome.find("runtime_error") != std::string::npos) { res.nontrivial = true; ++res.probes["unit_ended_by_error"]; }
     if (cancel_at > 0 && im.steps >= cancel_at) { ++res.faults["cancel"]; res.faulty = true; res.nontrivial = true; }
     bool cancelled = cancel_at > 0 && im.steps >= cancel_at;
-    if (!im.parsed) { ++res.probes["program_rejected"]; fail("M/harness-generated-program-rejected", im.parse_error); }
+    if (!im.parsed && rr.outcome.find("parse_error") == std::string::npos) { ++res.probes["program_rejected"]; fail("M/harness-generated-program-rejected", im.parse_error); }
     else if (im.outcome.find("foreign_exception") != std::string::npos) fail(prop() + "/foreign-exception", im.outcome);
     else if (!im.residue.empty()) fail(prop() + "/residue", im.residue + (cancelled ? " (after bloc_break)" : "") + "; outcome " + im.outcome);
     else if (!im.uniform.empty()) fail(prop() + "/container-not-uniform", im.uniform);
+    else if (!im.constants.empty()) fail(prop() + "/program-text-changed-by-running", im.constants);
     else if (!im.constraint.empty()) fail(prop() + "/type-constraint-broken", im.constraint);
     else if (rr.unsupported) { ++res.probes["model_unsupported"]; ev.add("unsupported:" + rr.unsupported_why); }
     else if (cancelled) { /* only invariants */ }
